@@ -220,9 +220,28 @@ def run(ctx):
                   'outside': 'the per-window add itself (C12 / C13), Value::to_partition_key (which values share a key: Int 1, Float 1.0 and Str "1" all render as "1" — formatting code), partitioned pattern run sets and aggregates, flush / check_expired / checkpoint of the partitioned wrappers'}
     ctx.assumptions += ['the partition key of a value is an arbitrary string token (to_partition_key is cut)', 'the per-window add_shared is cut: it records the receiving window object', 'FxHashMap as an entry list with distinct keys']
     tasks = [(outer, n, present) for outer in KINDS for n in range(0, nmax + 1) for present in (True, False)]
+    from props import c04neg
+    ntasks = c04neg.tasks(ctx.tier)
+    ctx.bounds['negation'] = 'SaseEngine::check_global_negations on an engine with one `.not` clause (forbidden type symbolic, predicate absent or `x OP literal`), partitioned (two partitions under distinct symbolic keys, one run each, event field missing or any key token) or not'
     with ProcessPoolExecutor(max_workers=12, mp_context=mp.get_context('fork')) as pool:
         res = list(pool.map(_worker, tasks))
+        nres = list(pool.map(c04neg._worker, ntasks))
     binp = None; seen = set()
+    for r in nres:
+        tgt = 'SaseEngine::check_global_negations'; cls = ' '.join(r['spec'][1:])
+        if r.get('error'):
+            ctx.inconclusive.append('%s (%s): %s' % (tgt, cls, r['error'])); continue
+        for why in sorted(set(r['inconclusive'])): ctx.inconclusive.append('%s (%s): %s' % (tgt, cls, why))
+        ctx.queries += r['queries']; ctx.solver_s += r['solver_s']
+        ctx.add_obligations(tgt, r['verdicts'], cls=cls)
+        ctx.samples.append({'class': tgt + ' ' + cls, 'paths': r['paths']})
+        for v in r['verdicts']:
+            if v['status'] != 'violated': continue
+            key = 'check_global_negations:%s' % v['name'].split(':')[0]
+            if key in seen: continue
+            seen.add(key)
+            w = v.get('witness') or {}
+            ctx.findings.append(Finding(key, '%s %s: %s (witness %s)' % (tgt, cls, v['name'], w), [replay.build('rt'), 'negpart'], w))
     for r in res:
         tgt = '%s::%s' % (r['spec'][0], WHERE.get(r['spec'][0], (0, 0, 'add_shared'))[2]); cls = '%s partitions, field %s' % (r['spec'][1], 'present' if r['spec'][2] == 'True' else 'missing')
         if r.get('error'):
